@@ -85,6 +85,23 @@ CLAIMS = {
         "analysis proves that no store or &mut borrow of *self can be followed by an Err construction (dependency helper ResultBoost::transform summarised "
         "from its pinned source).",
    note="Trusted: rustc HIR/MIR, std String/Vec/HashSet mutator semantics, usize::from_str, the pinned nar_dev_utils summary (version asserted)."),
+ "C13": dict(
+   level="other", design="DESIGN.md §4 C13",
+   technique="static analysis: constructor-discipline shape rules over HIR (validate in position, arity ladder), delegation chain incl. hash-pinned dependency source, accessor variant tables",
+   text="Every f64 reaching a Truth/Budget variant field passes exactly one 0-1 validation in its own position on both the panicking (validate_01) "
+        "and the fallible (try_validate_01 + ?) path; try_from_floats is an arity ladder that validates item k before use, returns the k-component "
+        "variant when item k is missing and never reads surplus items; is_valid/try_validate/validate delegate to is_in_01/try_validate_01/validate_01 "
+        "whose pinned definitions give panics <=> Err <=> !(0<=x<=1); accessors return their own field for exactly the variants that have it. "
+        "The root(n) numeric law is not decided.",
+   note="Trusted: rustc HIR, nar_dev_utils 0.42.3 floats.rs (sha256 asserted), RangeInclusive::contains and Result::unwrap semantics."),
+ "C15": dict(
+   level="other", design="DESIGN.md §4 C15",
+   technique="static analysis: exhaustive symbolic evaluation of the two kind-selection matches over all 32 slot assignments; variant-table extraction of casts/wrappers; must-pass-through on MIR",
+   text="The enum transform_mid_result and the lexical MidParseResult::fold are evaluated as ordered decision tables on all 2^5 presence assignments of "
+        "the optional slots and must equal the property's own truth table (hence each other); cast_to_task / try_cast_to_sentence (enum, lexical and the "
+        "NarseseValue lift), is_X / try_into_X / from_X / try_into_task_compatible are decoded into variant tables; a dominator rule shows both formatters "
+        "always write both budget brackets and the task formatter always formats the budget. kind(parse(format(v))) for all v is not decided.",
+   note="Trusted: rustc HIR/MIR, std Option/Vec::is_empty semantics, the rule layer."),
 }
 
 NOT_YET = "check not built yet (DESIGN.md §8 build order); will be claimed once its rules run"
